@@ -164,6 +164,10 @@ def run_verus(unit, expanded, must_fail=False, sub="common"):
         if vr.get("verified", 0) + vr.get("errors", 0) < n_real:
             raise Undecided("unit %s: verus checked %d functions but the unit has %d real functions under contract" % (
                 unit, vr.get("verified", 0) + vr.get("errors", 0), n_real))
+    elif vr.get("verified", 0) + vr.get("errors", 0) == 0 and n_real > 0:
+        # the twin did not get as far as verification (rustc error in the rendered unit): nothing was decided about vacuity either
+        msg = "; ".join(d["message"] for d in diags[:2]) or p.stderr[-400:].replace("\n", " ")
+        raise Undecided("unit %s: the must-fail rendering does not compile: %s" % (unit, msg))
     funcs = {}
     smt_total = 0.0
     for m in js.get("times-ms", {}).get("smt", {}).get("smt-run-module-times", []):
